@@ -112,7 +112,10 @@ def handleAsm (op : String) (j : Json) : Option Json :=
     let T ← (jField? j "fl").bind jStr? |>.bind tableOf
     let P ← (jField? j "p").bind progOfJson
     let fixed := ((jField? j "fixed").bind jBool?).getD true
-    let proto := if fixed then assembleProto Gen.excTable Gen.numScratch P
+    -- `reserved_registers=…` of `assemble_subroutine`: [[bank, idx], …], absent = none
+    let reserved : List Reg := (((jField? j "reserved").bind jArr?).map (fun a =>
+      a.toList.filterMap (fun e => (jInts? e).bind (fun l => (regOf l).map (·.1))))).getD []
+    let proto := if fixed then assembleProto Gen.excTable Gen.numScratch P reserved
                  else assembleProtoTop Gen.excTable Gen.numScratch P
     pure (match proto with
       | .error e => Json.mkObj [("err", (asmErrName e : Json))]
